@@ -24,7 +24,8 @@ LEAVES = [["int", 0], ["int", 1], ["int", -1], ["int", 7], ["bool", True], ["boo
           ["tuple", [["int", 0]]], ["list", []], ["list", [["int", 1], ["int", 2]]], ["name", 0], ["name", 1]]
 BINOPS = {"add": "+", "sub": "-", "mul": "*", "floordiv": "//", "mod": "%"}
 CMPOPS = {"eq": "==", "ne": "!=", "lt": "<", "le": "<=", "gt": ">", "ge": ">="}
-BUILTINS = ["len", "abs", "bool", "int", "min", "max"]
+UNARY = ["len", "abs", "bool", "int", "sum", "any", "all", "tuple", "list"]
+BUILTINS = UNARY + ["min", "max"]
 
 
 def text(e):
@@ -65,7 +66,7 @@ def depth1():
     for a in LEAVES:
         out.append(["not", a])
         out.append(["neg", a])
-        for f in BUILTINS[:4]:
+        for f in UNARY:
             out.append(["call", f, [a]])
         for b in LEAVES:
             for op in BINOPS:
